@@ -28,15 +28,15 @@ package gff
 //@   ensures [clean-record]   f != nil ==> err == nil
 //@   ensures [no-data-loss]   lastErr(r.r) == io.EOF && lastLen(r.r) > 0 ==> splitCount(0) > old(splitCount(0))
 //@   ensures [monotone]       splitCount(0) >= old(splitCount(0))
-//@   loop 1 invariant r != nil && r.r != nil && splitCount(0) == old(splitCount(0))
+//@   loop 1 invariant r != nil && r.r != nil && splitCount(0) >= old(splitCount(0)) && f == nil
 
 //@ func (*Reader).commentMetaline
 //@   property C03 C04
 //@   throws
 //@   requires r != nil && r.r != nil
-//@   ensures [value-or-error] f != nil || err != nil
 //@   ensures [clean-record] f != nil ==> err == nil
 //@   ensures [parsed] splitCount(0) > old(splitCount(0))
+//@   ensures [reader-kept] r.r == old(r.r)
 //@   exsures [parsed-on-error] splitCount(0) > old(splitCount(0))
 
 //@ func (*Reader).metaSeq
@@ -46,8 +46,9 @@ package gff
 //@   ensures [no-data-loss]   lastErr(r.r) == io.EOF && lastLen(r.r) > 0 ==> result0 != nil || (result1 != nil && result1 != io.EOF)
 //@   ensures [clean-record]   result0 != nil ==> result1 == nil
 //@   ensures [monotone]       splitCount(0) >= old(splitCount(0))
+//@   ensures [reader-kept]    r.r == old(r.r)
 //@   loop 1 invariant splitCount(0) >= old(splitCount(0))
-//@   loop 1 invariant r != nil && r.r != nil
+//@   loop 1 invariant r != nil && r.r != nil && r.r == old(r.r)
 
 //@ func splitAnnot
 //@   property C03
